@@ -459,6 +459,18 @@ func c09Faults() []c09Fault {
 			last := names[len(names)-1]
 			b.proj.Config.Sub("packages").Sub(b.tpath()).Sub("interfaces").Set(last, nil)
 		}},
+		{Class: "valid", Variant: "configs-first-entry-empty", Apply: func(b *c09Base, _ string, _ *simrt.Plan) {
+			e := b.proj.Config.Sub("packages").Sub(b.tpath())
+			e.Sub("interfaces").Sub(b.i1).Set("configs", []any{world.NewY(), world.NewY().Set("structname", "Mock"+b.i1+"B")})
+			out := c09OutFile(b.tpkg().Dir)
+			var keep []string
+			for _, sn := range b.expect[out] {
+				if sn != "Mock"+b.i1+"A" {
+					keep = append(keep, sn)
+				}
+			}
+			b.expect[out] = append(keep, "Mock"+b.i1)
+		}},
 		{Class: "valid", Variant: "empty-configs-list", Apply: func(b *c09Base, _ string, _ *simrt.Plan) {
 			names := b.tpkg().AllIfaces(nil)
 			last := names[len(names)-1]
